@@ -1,10 +1,593 @@
-//! C13 — not built yet.
-use crate::{sx::Sx, Emitter};
+//! C13 — push ruleset edits: operation sequences on the real `Ruleset`.
+//!
+//! case = ( start ( op ... ) )          start 0: `Ruleset::new()`, 1: `Ruleset::server_default(@u:x.y)`
+//!   op = ( N0 kind id actions payload after? before? )   Ruleset::insert
+//!      | ( N1 rkind id )                                 Ruleset::remove
+//!      | ( N2 rkind id enabled )                         Ruleset::set_enabled
+//!      | ( N3 rkind id actions )                         Ruleset::set_actions
+//!      | ( N4 )                                          full observation through Ruleset::iter
+//!      | ( N5 rkind id )                                 Ruleset::get
+//!   kind: 0 override 1 content 2 room 3 sender 4 underride (the order of `Ruleset::iter`); rkind
+//!   additionally 5 = a custom `RuleKind`.  `actions` is the JSON text of the `Vec<Action>`;
+//!   `payload` is the JSON text of the conditions (override/underride), the pattern (content) or
+//!   empty (room/sender).
+//!
+//! outcome = ( N2 )                       some operation panicked
+//!         | ( N0 steps ) | ( N1 code steps )   by the result of the last operation
+//!   step  = ( res delta obs )
+//!   res   = ( N0 ) | ( N1 code )
+//!   delta = for every kind whose rule list differs from the one before the operation (for op 4:
+//!           every kind): ( kind ( id ... ) ( rec ... ) ) — all ids in order, and the records that
+//!           were not present (identically) before;  rec = ( id default enabled actions payload )
+//!   obs   = result of `get` ( () or ( rec ) ), empty otherwise.
+//! Error codes: 1 ServerDefaultRuleId 2 InvalidRuleId 3 RelativeToServerDefaultRule 4 UnknownRuleId
+//! 5 BeforeHigherThanAfter | 6 remove:ServerDefault 7 remove:NotFound | 8 RuleNotFoundError.
+use std::panic::AssertUnwindSafe;
 
-pub fn run(_tier: &str, _seed: u64, _em: &mut Emitter) {}
+use ruma_common::{
+    push::{
+        Action, AnyPushRuleRef, InsertPushRuleError, NewConditionalPushRule, NewPatternedPushRule, NewPushRule,
+        NewSimplePushRule, PushCondition, RemovePushRuleError, RuleKind, Ruleset,
+    },
+    OwnedRoomId, OwnedUserId, UserId,
+};
 
-pub fn replay(_case: &Sx) -> Option<Sx> {
-    None
+use crate::{rng::Rng, sx::Sx, Emitter};
+
+const USER: &str = "@u:x.y";
+
+#[derive(Clone, PartialEq, Eq, Debug)]
+struct Rec {
+    id: String,
+    default: bool,
+    enabled: bool,
+    actions: String,
+    payload: String,
 }
 
-pub fn dump(_dir: &str) {}
+impl Rec {
+    fn sx(&self) -> Sx {
+        Sx::L(vec![Sx::s(&self.id), Sx::b(self.default), Sx::b(self.enabled), Sx::s(&self.actions), Sx::s(&self.payload)])
+    }
+}
+
+fn rec_of(r: AnyPushRuleRef<'_>) -> (usize, Rec) {
+    let (k, payload) = match r {
+        AnyPushRuleRef::Override(c) => (0, serde_json::to_string(&c.conditions).unwrap()),
+        AnyPushRuleRef::Content(p) => (1, p.pattern.clone()),
+        AnyPushRuleRef::Room(_) => (2, String::new()),
+        AnyPushRuleRef::Sender(_) => (3, String::new()),
+        AnyPushRuleRef::Underride(c) => (4, serde_json::to_string(&c.conditions).unwrap()),
+        _ => unreachable!(),
+    };
+    (
+        k,
+        Rec {
+            id: r.rule_id().to_owned(),
+            default: r.is_server_default(),
+            enabled: r.enabled(),
+            actions: serde_json::to_string(r.actions()).unwrap(),
+            payload,
+        },
+    )
+}
+
+type State = [Vec<Rec>; 5];
+
+/// The state as observable through `Ruleset::iter` (which yields the kinds in a fixed order).
+fn observe(rs: &Ruleset) -> State {
+    let mut st: State = Default::default();
+    for r in rs.iter() {
+        let (k, rec) = rec_of(r);
+        st[k].push(rec);
+    }
+    st
+}
+
+fn kind_sx(k: usize, new: &[Rec], old: Option<&[Rec]>) -> Sx {
+    let ids = new.iter().map(|r| Sx::s(&r.id)).collect();
+    let recs = new.iter().filter(|r| old.map_or(true, |o| !o.contains(r))).map(Rec::sx).collect();
+    Sx::L(vec![Sx::n(k as u32), Sx::L(ids), Sx::L(recs)])
+}
+
+fn rule_kind(k: i128) -> Option<RuleKind> {
+    Some(match k {
+        0 => RuleKind::Override,
+        1 => RuleKind::Content,
+        2 => RuleKind::Room,
+        3 => RuleKind::Sender,
+        4 => RuleKind::Underride,
+        5 => RuleKind::from("org.example.custom"),
+        _ => return None,
+    })
+}
+
+#[derive(Clone, Debug)]
+enum Op {
+    Insert { kind: usize, id: String, actions: String, payload: String, after: Option<String>, before: Option<String> },
+    Remove { kind: usize, id: String },
+    SetEnabled { kind: usize, id: String, enabled: bool },
+    SetActions { kind: usize, id: String, actions: String },
+    Dump,
+    Get { kind: usize, id: String },
+}
+
+impl Op {
+    fn sx(&self) -> Sx {
+        let o = |x: &Option<String>| Sx::opt(x.as_deref().map(Sx::s));
+        match self {
+            Op::Insert { kind, id, actions, payload, after, before } => {
+                Sx::L(vec![Sx::N(0), Sx::n(*kind as u32), Sx::s(id), Sx::s(actions), Sx::s(payload), o(after), o(before)])
+            }
+            Op::Remove { kind, id } => Sx::L(vec![Sx::N(1), Sx::n(*kind as u32), Sx::s(id)]),
+            Op::SetEnabled { kind, id, enabled } => Sx::L(vec![Sx::N(2), Sx::n(*kind as u32), Sx::s(id), Sx::b(*enabled)]),
+            Op::SetActions { kind, id, actions } => Sx::L(vec![Sx::N(3), Sx::n(*kind as u32), Sx::s(id), Sx::s(actions)]),
+            Op::Dump => Sx::L(vec![Sx::N(4)]),
+            Op::Get { kind, id } => Sx::L(vec![Sx::N(5), Sx::n(*kind as u32), Sx::s(id)]),
+        }
+    }
+
+    fn parse(x: &Sx) -> Option<Op> {
+        let l = x.as_list()?;
+        let s = |i: usize| l.get(i).and_then(Sx::as_string);
+        let k = |max: i128| l.get(1).and_then(Sx::as_int).filter(|k| (0..=max).contains(k)).map(|k| k as usize);
+        let o = |i: usize| -> Option<Option<String>> {
+            match l.get(i)?.as_opt()? {
+                None => Some(None),
+                Some(v) => Some(Some(v.as_string()?)),
+            }
+        };
+        Some(match (l.first()?.as_int()?, l.len()) {
+            (0, 7) => Op::Insert { kind: k(4)?, id: s(2)?, actions: s(3)?, payload: s(4)?, after: o(5)?, before: o(6)? },
+            (1, 3) => Op::Remove { kind: k(5)?, id: s(2)? },
+            (2, 4) => Op::SetEnabled { kind: k(5)?, id: s(2)?, enabled: l[3].as_int()? != 0 },
+            (3, 4) => Op::SetActions { kind: k(5)?, id: s(2)?, actions: s(3)? },
+            (4, 1) => Op::Dump,
+            (5, 3) => Op::Get { kind: k(5)?, id: s(2)? },
+            _ => return None,
+        })
+    }
+}
+
+/// Canonical JSON text of an action list (what the observation prints).
+fn canon_actions(text: &str) -> Option<(Vec<Action>, String)> {
+    let a: Vec<Action> = serde_json::from_str(text).ok()?;
+    let back = serde_json::to_string(&a).ok()?;
+    (back == text).then_some((a, back))
+}
+
+fn canon_conditions(text: &str) -> Option<Vec<PushCondition>> {
+    let c: Vec<PushCondition> = serde_json::from_str(text).ok()?;
+    (serde_json::to_string(&c).ok()? == text).then_some(c)
+}
+
+/// Build the `NewPushRule`; `None` when the case cannot be expressed with ruma's types (a room
+/// rule whose id is not a room id, ...): such cases are not generated.
+fn new_rule(kind: usize, id: &str, actions: &str, payload: &str) -> Option<NewPushRule> {
+    let (actions, _) = canon_actions(actions)?;
+    Some(match kind {
+        0 => NewPushRule::Override(NewConditionalPushRule::new(id.to_owned(), canon_conditions(payload)?, actions)),
+        4 => NewPushRule::Underride(NewConditionalPushRule::new(id.to_owned(), canon_conditions(payload)?, actions)),
+        1 => NewPushRule::Content(NewPatternedPushRule::new(id.to_owned(), payload.to_owned(), actions)),
+        2 if payload.is_empty() => NewPushRule::Room(NewSimplePushRule::new(OwnedRoomId::try_from(id).ok()?, actions)),
+        3 if payload.is_empty() => NewPushRule::Sender(NewSimplePushRule::new(OwnedUserId::try_from(id).ok()?, actions)),
+        _ => return None,
+    })
+}
+
+fn expressible(op: &Op) -> bool {
+    match op {
+        Op::Insert { kind, id, actions, payload, .. } => new_rule(*kind, id, actions, payload).is_some(),
+        Op::SetActions { actions, .. } => canon_actions(actions).is_some(),
+        _ => true,
+    }
+}
+
+fn insert_code(e: &InsertPushRuleError) -> i128 {
+    match e {
+        InsertPushRuleError::ServerDefaultRuleId => 1,
+        InsertPushRuleError::InvalidRuleId => 2,
+        InsertPushRuleError::RelativeToServerDefaultRule => 3,
+        InsertPushRuleError::UnknownRuleId => 4,
+        InsertPushRuleError::BeforeHigherThanAfter => 5,
+        _ => 99,
+    }
+}
+
+/// Apply one operation to the real ruleset. `Err(())` = panic.
+fn apply(rs: &mut Ruleset, op: &Op) -> Result<(Result<(), i128>, Vec<Sx>), ()> {
+    let r = std::panic::catch_unwind(AssertUnwindSafe(|| -> (Result<(), i128>, Vec<Sx>) {
+        match op {
+            Op::Insert { kind, id, actions, payload, after, before } => {
+                let rule = new_rule(*kind, id, actions, payload).expect("expressible");
+                (rs.insert(rule, after.as_deref(), before.as_deref()).map_err(|e| insert_code(&e)), vec![])
+            }
+            Op::Remove { kind, id } => (
+                rs.remove(rule_kind(*kind as i128).unwrap(), id).map_err(|e| match e {
+                    RemovePushRuleError::ServerDefault => 6,
+                    RemovePushRuleError::NotFound => 7,
+                    _ => 99,
+                }),
+                vec![],
+            ),
+            Op::SetEnabled { kind, id, enabled } => {
+                (rs.set_enabled(rule_kind(*kind as i128).unwrap(), id, *enabled).map_err(|_| 8), vec![])
+            }
+            Op::SetActions { kind, id, actions } => {
+                let (a, _) = canon_actions(actions).expect("expressible");
+                (rs.set_actions(rule_kind(*kind as i128).unwrap(), id, a).map_err(|_| 8), vec![])
+            }
+            Op::Dump => (Ok(()), vec![]),
+            Op::Get { kind, id } => {
+                let got = rs.get(rule_kind(*kind as i128).unwrap(), id).map(|r| rec_of(r).1.sx());
+                (Ok(()), vec![Sx::opt(got)])
+            }
+        }
+    }));
+    r.map_err(|_| ())
+}
+
+fn start_state(start: i128) -> Option<Ruleset> {
+    match start {
+        0 => Some(Ruleset::new()),
+        1 => Some(Ruleset::server_default(<&UserId>::try_from(USER).unwrap())),
+        _ => None,
+    }
+}
+
+fn run_ops(start: i128, ops: &[Op]) -> Option<Sx> {
+    let mut rs = start_state(start)?;
+    let mut prev = observe(&rs);
+    let mut steps = vec![];
+    let mut last: Result<(), i128> = Ok(());
+    for op in ops {
+        if !expressible(op) {
+            return None;
+        }
+        let Ok((res, obs)) = apply(&mut rs, op) else { return Some(Sx::panic()) };
+        let now = observe(&rs);
+        let full = matches!(op, Op::Dump);
+        let delta = (0..5)
+            .filter(|&k| full || now[k] != prev[k])
+            .map(|k| kind_sx(k, &now[k], if full { None } else { Some(&prev[k]) }))
+            .collect();
+        let res_sx = match res {
+            Ok(()) => Sx::L(vec![Sx::N(0)]),
+            Err(c) => Sx::L(vec![Sx::N(1), Sx::N(c)]),
+        };
+        steps.push(Sx::L(vec![res_sx, Sx::L(delta), Sx::L(obs)]));
+        if !matches!(op, Op::Dump | Op::Get { .. }) {
+            last = res;
+        }
+        prev = now;
+    }
+    Some(match last {
+        Ok(()) => Sx::L(vec![Sx::N(0), Sx::L(steps)]),
+        Err(c) => Sx::L(vec![Sx::N(1), Sx::N(c), Sx::L(steps)]),
+    })
+}
+
+fn case_sx(start: i128, ops: &[Op]) -> Sx {
+    Sx::L(vec![Sx::N(start), Sx::L(ops.iter().map(Op::sx).collect())])
+}
+
+pub fn replay(case: &Sx) -> Option<Sx> {
+    let l = case.as_list()?;
+    if l.len() != 2 {
+        return None;
+    }
+    let start = l[0].as_int()?;
+    let ops = l[1].as_list()?.iter().map(Op::parse).collect::<Option<Vec<_>>>()?;
+    run_ops(start, &ops)
+}
+
+fn emit(em: &mut Emitter, tag: &str, start: i128, ops: &[Op]) {
+    if let Some(out) = run_ops(start, ops) {
+        em.emit(tag, case_sx(start, ops), out);
+    }
+}
+
+// ---------------------------------------------------------------------------------------------
+// Alphabets
+// ---------------------------------------------------------------------------------------------
+const ACTIONS: &[&str] = &[
+    "[]",
+    "[\"notify\"]",
+    "[\"notify\",{\"set_tweak\":\"highlight\"}]",
+    "[\"notify\",{\"set_tweak\":\"sound\",\"value\":\"default\"}]",
+];
+
+fn payloads(kind: usize) -> &'static [&'static str] {
+    match kind {
+        0 | 4 => &["[]", "[{\"kind\":\"event_match\",\"key\":\"type\",\"pattern\":\"m.room.message\"}]"],
+        1 => &["p", "q*", ""],
+        _ => &[""],
+    }
+}
+
+/// The rule id spelled for a kind (`a` -> `a`, `!a:x`, `@a:x`).
+fn id_for(kind: usize, name: &str) -> String {
+    match kind {
+        2 => format!("!{name}:x"),
+        3 => format!("@{name}:x"),
+        _ => name.to_owned(),
+    }
+}
+
+/// A server-default rule id that exists in the default ruleset for that kind (or a dotted id).
+fn dot_id(kind: usize) -> &'static str {
+    match kind {
+        0 => ".m.rule.master",
+        1 => ".m.rule.contains_user_name",
+        4 => ".m.rule.message",
+        _ => ".m.rule.none",
+    }
+}
+
+fn ins(kind: usize, id: &str, a: usize, p: usize, after: Option<&str>, before: Option<&str>) -> Op {
+    let ps = payloads(kind);
+    Op::Insert {
+        kind,
+        id: id.to_owned(),
+        actions: ACTIONS[a % ACTIONS.len()].to_owned(),
+        payload: ps[p % ps.len()].to_owned(),
+        after: after.map(str::to_owned),
+        before: before.map(str::to_owned),
+    }
+}
+
+/// Operation alphabet on one kind over the given names.
+fn alphabet(kind: usize, names: &[&str], rich: bool) -> Vec<Op> {
+    let mut ops = vec![];
+    let ids: Vec<String> = names.iter().map(|n| id_for(kind, n)).collect();
+    let unknown = id_for(kind, "zz");
+    // anchors: every pair over {none, ids}; the unknown and the server-default anchor alone, next
+    // to the first id on either side, and together
+    let mut good: Vec<Option<String>> = vec![None];
+    good.extend(ids.iter().cloned().map(Some));
+    let mut pairs: Vec<(Option<String>, Option<String>)> = vec![];
+    for a in &good {
+        for b in &good {
+            pairs.push((a.clone(), b.clone()));
+        }
+    }
+    let dot = Some(dot_id(kind).to_owned());
+    for odd in [Some(unknown.clone()), dot.clone()] {
+        for other in [None, Some(ids[0].clone())] {
+            pairs.push((odd.clone(), other.clone()));
+            pairs.push((other, odd.clone()));
+        }
+    }
+    pairs.push((Some(unknown.clone()), dot));
+    let mut subjects = ids.clone();
+    if rich {
+        subjects.push(id_for(kind, "n"));
+    }
+    for id in &subjects {
+        for (a, b) in &pairs {
+            ops.push(ins(kind, id, 1, 1, a.as_deref(), b.as_deref()));
+        }
+    }
+    // ids insert must refuse (only expressible for string-keyed kinds)
+    for bad in [dot_id(kind).to_owned(), ".x".to_owned(), id_for(kind, "a/b"), id_for(kind, "a\\b")] {
+        ops.push(ins(kind, &bad, 2, 0, None, None));
+        ops.push(ins(kind, &bad, 2, 0, Some(&ids[0]), None));
+        if rich {
+            ops.push(ins(kind, &bad, 2, 0, Some(dot_id(kind)), Some(&unknown)));
+        }
+    }
+    for id in ids.iter().chain([&unknown, &dot_id(kind).to_owned()]) {
+        ops.push(Op::Remove { kind, id: id.clone() });
+        ops.push(Op::SetEnabled { kind, id: id.clone(), enabled: false });
+        ops.push(Op::SetActions { kind, id: id.clone(), actions: ACTIONS[3].to_owned() });
+        if rich {
+            ops.push(Op::Get { kind, id: id.clone() });
+        }
+    }
+    ops.push(Op::SetEnabled { kind, id: ids[0].clone(), enabled: true });
+    if rich {
+        ops.push(Op::Remove { kind: 5, id: ids[0].clone() });
+        ops.push(Op::SetEnabled { kind: 5, id: ids[0].clone(), enabled: true });
+        ops.push(Op::SetActions { kind: 5, id: ids[0].clone(), actions: ACTIONS[0].to_owned() });
+        ops.push(Op::Get { kind: 5, id: ids[0].clone() });
+    }
+    ops.retain(expressible);
+    ops
+}
+
+/// All duplicate-free arrangements of subsets of `names`.
+fn arrangements(names: &[&str]) -> Vec<Vec<String>> {
+    fn go(names: &[&str], cur: &mut Vec<String>, out: &mut Vec<Vec<String>>) {
+        out.push(cur.clone());
+        for n in names {
+            if !cur.iter().any(|c| c == n) {
+                cur.push((*n).to_owned());
+                go(names, cur, out);
+                cur.pop();
+            }
+        }
+    }
+    let mut out = vec![];
+    go(names, &mut vec![], &mut out);
+    out
+}
+
+/// Operations that build the arrangement (in that order) in `kind`, the first rule disabled.
+fn setup(kind: usize, arr: &[String]) -> Vec<Op> {
+    let mut ops = vec![];
+    for (i, n) in arr.iter().enumerate() {
+        let id = id_for(kind, n);
+        let prev = (i > 0).then(|| id_for(kind, &arr[i - 1]));
+        ops.push(ins(kind, &id, 0, 0, prev.as_deref(), None));
+    }
+    if let Some(n) = arr.first() {
+        ops.push(Op::SetEnabled { kind, id: id_for(kind, n), enabled: false });
+    }
+    ops
+}
+
+fn random_op(r: &mut Rng, names: &[&str]) -> Op {
+    let kind = *r.pick(&[0usize, 0, 0, 1, 1, 2, 3, 4, 4]);
+    let name = |r: &mut Rng| id_for(kind, *r.pick(names));
+    let anchor = |r: &mut Rng| -> Option<String> {
+        match r.below(10) {
+            0..=3 => None,
+            4..=7 => Some(id_for(kind, *r.pick(names))),
+            8 => Some(id_for(kind, "zz")),
+            _ => Some(dot_id(kind).to_owned()),
+        }
+    };
+    match r.below(20) {
+        0..=10 => {
+            let id = if r.chance(1, 25) { dot_id(kind).to_owned() } else { name(r) };
+            let (a, b) = (anchor(r), anchor(r));
+            ins(kind, &id, r.below(4), r.below(3), a.as_deref(), b.as_deref())
+        }
+        11..=13 => Op::Remove { kind: if r.chance(1, 30) { 5 } else { kind }, id: if r.chance(1, 8) { dot_id(kind).to_owned() } else { name(r) } },
+        14..=16 => Op::SetEnabled { kind, id: if r.chance(1, 4) { dot_id(kind).to_owned() } else { name(r) }, enabled: r.chance(1, 2) },
+        17 | 18 => Op::SetActions { kind, id: if r.chance(1, 4) { dot_id(kind).to_owned() } else { name(r) }, actions: ACTIONS[r.below(4)].to_owned() },
+        _ => Op::Get { kind, id: name(r) },
+    }
+}
+
+const ODD_IDS: &[&str] = &[
+    "", ".", "..", "a.", "/", "\\", "a/", "\\a", "\u{e9}", ".\u{e9}", "\u{1F600}/", " .a", "a b", "\u{0}", "A", "a\u{0301}",
+    "!r:x", "!r/r:x", "!.r:x", "@s:x", "@s/s:x", "@.s:x", "@s\\s:x", "!r\\r:x",
+];
+
+pub fn run(tier: &str, seed: u64, em: &mut Emitter) {
+    let thorough = tier == "thorough";
+    // The start states themselves (ties coq/Gen/C13Defaults.v to `Ruleset::server_default`).
+    for start in 0..2 {
+        emit(em, "systematic-start", start, &[Op::Dump]);
+    }
+
+    // Systematic 1: every arrangement of a small set of rules in a kind, then every single operation.
+    let names: &[&str] = if thorough { &["a", "b", "c", "d"] } else { &["a", "b", "c"] };
+    for start in 0..2i128 {
+        for kind in 0..5usize {
+            if start == 1 && (kind == 2 || kind == 3) {
+                continue; // no server-default room/sender rules: same as start 0
+            }
+            let alpha = alphabet(kind, names, true);
+            for arr in arrangements(names) {
+                let pre = setup(kind, &arr);
+                for op in &alpha {
+                    let mut ops = pre.clone();
+                    ops.push(op.clone());
+                    emit(em, "systematic-state", start, &ops);
+                }
+            }
+        }
+    }
+
+    // Systematic 1b: every order of four rules, then every (re-)insertion with anchors among them:
+    // the moved rule in every relative position to one or two anchors.
+    let four = ["a", "b", "c", "d"];
+    for (start, kind) in [(0i128, 0usize), (1, 0), (0, 1)] {
+        let ids: Vec<String> = four.iter().map(|n| id_for(kind, n)).collect();
+        let mut anchors: Vec<Option<&str>> = vec![None];
+        anchors.extend(ids.iter().map(|i| Some(i.as_str())));
+        let new_id = id_for(kind, "n");
+        for arr in arrangements(&four).into_iter().filter(|a| a.len() == 4) {
+            let pre = setup(kind, &arr);
+            for subject in ids.iter().chain([&new_id]) {
+                for a in &anchors {
+                    for b in &anchors {
+                        let mut ops = pre.clone();
+                        ops.push(ins(kind, subject, 1, 1, *a, *b));
+                        emit(em, "systematic-perm", start, &ops);
+                    }
+                }
+            }
+        }
+    }
+
+    // Systematic 2: all operation sequences up to a length over a smaller alphabet.
+    let len = if thorough { 3 } else { 2 };
+    for start in 0..2i128 {
+        for kind in [0usize, 1] {
+            let alpha = alphabet(kind, &["a", "b"], false);
+            let mut idx = vec![0usize; len];
+            'outer: loop {
+                // all sequences of exactly `len` operations; shorter ones are their prefixes
+                let ops: Vec<Op> = idx.iter().map(|&i| alpha[i].clone()).collect();
+                emit(em, "systematic-seq", start, &ops);
+                for d in (0..len).rev() {
+                    idx[d] += 1;
+                    if idx[d] < alpha.len() {
+                        continue 'outer;
+                    }
+                    idx[d] = 0;
+                }
+                break;
+            }
+        }
+    }
+
+    // Random structured: long mixed sequences over all kinds, ending in a full observation.
+    let mut r = Rng::new(seed ^ 0xC13);
+    let n_random = if thorough { 20_000 } else { 800 };
+    for _ in 0..n_random {
+        let start = r.below(2) as i128;
+        let n = 3 + r.below(38);
+        let names: &[&str] = if r.chance(1, 2) { &["a", "b", "c"] } else { &["a", "b", "c", "d", "e", "f"] };
+        let mut ops = vec![];
+        while ops.len() < n {
+            let op = random_op(&mut r, names);
+            if expressible(&op) {
+                ops.push(op);
+            }
+        }
+        ops.push(Op::Dump);
+        emit(em, "random", start, &ops);
+    }
+
+    // Malformed: odd rule ids and anchors.
+    let mut r = Rng::new(seed ^ 0xC13_BAD);
+    let n_bad = if thorough { 20_000 } else { 2_000 };
+    let mut done = 0;
+    while done < n_bad {
+        let start = r.below(2) as i128;
+        let kind = r.below(5);
+        let odd = |r: &mut Rng| (*r.pick(ODD_IDS)).to_owned();
+        let mut ops = setup(kind, &["a".to_owned(), "b".to_owned()][..r.below(3)]);
+        for _ in 0..1 + r.below(3) {
+            let a = if r.chance(1, 2) { Some(odd(&mut r)) } else if r.chance(1, 2) { Some(id_for(kind, "a")) } else { None };
+            let b = if r.chance(1, 3) { Some(odd(&mut r)) } else { None };
+            let op = match r.below(6) {
+                0..=2 => ins(kind, &odd(&mut r), r.below(4), r.below(3), a.as_deref(), b.as_deref()),
+                3 => Op::Remove { kind: r.below(6), id: odd(&mut r) },
+                4 => Op::SetEnabled { kind: r.below(6), id: odd(&mut r), enabled: r.chance(1, 2) },
+                _ => Op::Get { kind: r.below(6), id: odd(&mut r) },
+            };
+            if expressible(&op) {
+                ops.push(op);
+            }
+        }
+        ops.push(Op::Dump);
+        emit(em, "malformed", start, &ops);
+        done += 1;
+    }
+}
+
+/// The server-default ruleset as the code builds it, for tools/translators/c13.py.
+pub fn dump(dir: &str) {
+    let rs = start_state(1).unwrap();
+    let st = observe(&rs);
+    let hex = |s: &str| s.bytes().map(|b| format!("{b:02x}")).collect::<String>();
+    let mut out = String::new();
+    for (k, l) in st.iter().enumerate() {
+        for r in l {
+            out.push_str(&format!(
+                "{k} {} {} {} {} {}\n",
+                hex(&r.id),
+                r.default as u8,
+                r.enabled as u8,
+                hex(&r.actions),
+                if r.payload.is_empty() { "-".to_owned() } else { hex(&r.payload) }
+            ));
+        }
+    }
+    std::fs::write(format!("{dir}/c13_defaults.txt"), out).unwrap();
+}
